@@ -23,14 +23,28 @@ def parseStmt (w : String) : Option Stmt :=
   | ['u'] => some .resumeNext
   | ['d'] => some .end_
   | ['c'] => some .clear
+  | ['t'] => some .cont
+  | 'j' :: rest => (String.ofList rest).toNat?.map Stmt.goto
   | _ => none
 
-def parseTick (w : String) : Option (List Nat × List Nat) :=
-  match w.splitOn "/" with
-  | [a, b] => do
-    let x ← digits a
-    let y ← digits b
-    pure (x, y)
+/-- `T<deliver>/<order>` or `D<deliver>/<order>/<stmt>` -/
+def parseItem (w : String) : Option Item :=
+  match w.toList with
+  | 'T' :: rest =>
+    match (String.ofList rest).splitOn "/" with
+    | [a, b] => do
+      let x ← digits a
+      let y ← digits b
+      pure (.line x y)
+    | _ => none
+  | 'D' :: rest =>
+    match (String.ofList rest).splitOn "/" with
+    | [a, b, c] => do
+      let x ← digits a
+      let y ← digits b
+      let st ← parseStmt c
+      pure (.direct x y st)
+    | _ => none
   | _ => none
 
 def parseNats (w : String) : Option (List Nat) :=
@@ -68,10 +82,10 @@ def evRun : St → SSt → List Ev → List String → String
 def handle : List String → String
   | ["vm", code, handlers, errStart, subStart, sched] =>
     match (code.splitOn ";").mapM parseStmt, parseNats handlers, errStart.toNat?, subStart.toNat?,
-          (sched.splitOn ";").mapM parseTick with
+          (sched.splitOn ";").mapM parseItem with
     | some code, some handlers, some e, some g, some sched =>
       let p : Prog := { code := code, handler := handlers, errStart := e, subStart := g }
-      let v := runVm p sched Vm.init []
+      let v := runVm p sched Vm.init
       "ok " ++ (if v.out.isEmpty then "-" else joinWith "," v.out.reverse) ++ " " ++
         showNats v.lines.reverse ++ " " ++ showBool v.halted
     | _, _, _, _, _ => "bad-op"
